@@ -131,7 +131,9 @@ impl Fabric {
         x.wrapping_mul(0x2545F4914F6CDD1D)
     }
 
-    fn send(self: &Arc<Self>, src: u16, dst: SocketAddr, data: &[u8]) {
+    /// `src_ip`: the address the sender answers from (a node is reachable under every 127.0.0.x address; replies to
+    /// a datagram that arrived for 127.0.0.2 leave from 127.0.0.2, as with a socket bound to 0.0.0.0 and IP_PKTINFO).
+    fn send(self: &Arc<Self>, src: u16, src_ip: IpAddr, dst: SocketAddr, data: &[u8]) {
         let mut copies: Vec<Duration> = Vec::new();
         let dst_port = dst.port();
         {
@@ -175,7 +177,7 @@ impl Fabric {
             let deliver = move || {
                 let target = me.0.lock().unwrap().nodes.get(&dst_port).cloned();
                 if let Some(t) = target {
-                    t.queue.lock().unwrap().push_back((src, data));
+                    t.queue.lock().unwrap().push_back((SocketAddr::new(src_ip, src), dst.ip(), data));
                     if let Some(w) = t.waker.lock().unwrap().take() {
                         w.wake();
                     }
@@ -201,7 +203,7 @@ const BURST_LIMIT: u32 = 256;
 pub struct FabricSocket {
     burst: Mutex<(Option<tokio::time::Instant>, u32)>,
     port: u16,
-    queue: Mutex<VecDeque<(u16, Vec<u8>)>>,
+    queue: Mutex<VecDeque<(SocketAddr, IpAddr, Vec<u8>)>>,
     waker: Mutex<Option<Waker>>,
     fabric: Arc<Fabric>,
 }
@@ -271,13 +273,14 @@ impl quinn::AsyncUdpSocket for FabricSocket {
         if self.over_budget(true) {
             return Err(io::Error::new(io::ErrorKind::WouldBlock, "fabric socket burst budget exhausted"));
         }
+        let src_ip = transmit.src_ip.unwrap_or(IpAddr::V4(Ipv4Addr::LOCALHOST));
         match transmit.segment_size {
             Some(seg) if seg > 0 => {
                 for chunk in transmit.contents.chunks(seg) {
-                    self.fabric.send(self.port, transmit.destination, chunk);
+                    self.fabric.send(self.port, src_ip, transmit.destination, chunk);
                 }
             }
-            _ => self.fabric.send(self.port, transmit.destination, transmit.contents),
+            _ => self.fabric.send(self.port, src_ip, transmit.destination, transmit.contents),
         }
         Ok(())
     }
@@ -295,16 +298,10 @@ impl quinn::AsyncUdpSocket for FabricSocket {
         }
         let mut n = 0;
         while n < bufs.len() && n < meta.len() {
-            let Some((src, data)) = q.pop_front() else { break };
+            let Some((src, dst_ip, data)) = q.pop_front() else { break };
             let len = data.len().min(bufs[n].len());
             bufs[n][..len].copy_from_slice(&data[..len]);
-            meta[n] = quinn::udp::RecvMeta {
-                addr: addr(src),
-                len,
-                stride: len,
-                ecn: None,
-                dst_ip: Some(IpAddr::V4(Ipv4Addr::LOCALHOST)),
-            };
+            meta[n] = quinn::udp::RecvMeta { addr: src, len, stride: len, ecn: None, dst_ip: Some(dst_ip) };
             n += 1;
         }
         Poll::Ready(Ok(n))
